@@ -835,7 +835,14 @@ pub fn handle_promise_all_fulfill(
         let results = mem::take(&mut *state.results.borrow_mut());
         let result_promise = state.result_promise.cheap_clone();
 
+        // The results are no longer reachable through the shared state: keep them alive
+        // while the array that will hold them is allocated
         let guard = interp.heap.create_guard();
+        for result in &results {
+            if let JsValue::Object(obj) = result {
+                guard.guard(obj.cheap_clone());
+            }
+        }
         let arr = interp.create_array_from(&guard, results);
         fulfill_promise(interp, &result_promise, JsValue::Object(arr))?;
     }
